@@ -192,6 +192,20 @@ type drSpec struct {
 	MinHealth  int32
 	Failover   bool // localityLbSetting.failover r1 -> r2
 	Distribute bool // localityLbSetting.distribute from r1/z1/* to {r1/z1/*: 70, r2/z1/*: 30}
+	// Subsets, when non-nil, are the subset selectors of the rule in force (DestinationRule
+	// histories); nil = the fixed subsets v1/v2 of the forms below.
+	Subsets map[string]map[string]string
+}
+
+// selector gives the labels a subset selects. defined=false: no rule in force defines the subset (open
+// cell); lower=true then still names labels whose bearers every reading includes (the forms below:
+// "with or without the label filter").
+func (d drSpec) selector(subset string) (sel map[string]string, defined, lower bool) {
+	if d.Subsets != nil {
+		sel, defined = d.Subsets[subset]
+		return sel, defined && !d.None, false
+	}
+	return subsetLabels[subset], !d.None, true
 }
 
 var drForms = []drSpec{
